@@ -343,6 +343,25 @@ fn spec_strip_trait(mut t: syn::ItemTrait) -> syn::ItemTrait {
     t
 }
 
+/// a trailing comma after the last parameter is not part of "the item as written": drop it on both sides
+fn no_trailing_comma_impl(mut i: syn::ItemImpl) -> syn::ItemImpl {
+    for it in i.items.iter_mut() {
+        if let syn::ImplItem::Fn(f) = it {
+            f.sig.inputs.pop_punct();
+        }
+    }
+    i
+}
+
+fn no_trailing_comma_trait(mut t: syn::ItemTrait) -> syn::ItemTrait {
+    for it in t.items.iter_mut() {
+        if let syn::TraitItem::Fn(f) = it {
+            f.sig.inputs.pop_punct();
+        }
+    }
+    t
+}
+
 /// first difference between the emitted first item and the required one, as text
 fn passthrough(kind: &str, input: &TS, first: Option<&syn::Item>) -> J {
     let Some(first) = first else { return s("no-first-item") };
@@ -351,7 +370,7 @@ fn passthrough(kind: &str, input: &TS, first: Option<&syn::Item>) -> J {
     match kind {
         "contract" => {
             let Ok(inp) = syn::parse2::<syn::ItemImpl>(input.clone()) else { return s("input-unparsable") };
-            want = norm(&spec_strip_impl(inp));
+            want = norm(&no_trailing_comma_impl(spec_strip_impl(inp)));
             let syn::Item::Impl(out) = first else { return s("first-item-not-impl") };
             let mut out = out.clone();
             // the macro prepends exactly one lint attribute of its own
@@ -360,12 +379,13 @@ fn passthrough(kind: &str, input: &TS, first: Option<&syn::Item>) -> J {
                     out.attrs.remove(0);
                 }
             }
-            got = norm(&out);
+            got = norm(&no_trailing_comma_impl(out));
         }
         "interface" => {
             let Ok(inp) = syn::parse2::<syn::ItemTrait>(input.clone()) else { return s("input-unparsable") };
-            want = norm(&spec_strip_trait(inp));
-            got = norm(first);
+            want = norm(&no_trailing_comma_trait(spec_strip_trait(inp)));
+            let syn::Item::Trait(out) = first else { return s("first-item-not-trait") };
+            got = norm(&no_trailing_comma_trait(out.clone()));
         }
         _ => {
             let Ok(inp) = syn::parse2::<syn::ItemImpl>(input.clone()) else { return s("input-unparsable") };
@@ -404,7 +424,16 @@ fn expand_one(kind: &str, attr: &str, src: &str) -> J {
             _ => crate::entry_points_impl(a, i),
         }
     };
-    let (ts, status) = run(|| call(attr_ts.clone(), item_ts.clone()));
+    let (ts, mut status) = run(|| call(attr_ts.clone(), item_ts.clone()));
+    // a syn::Error returned by the front end comes back as `compile_error!{..}`: that is a rejection too
+    if status == "clean" {
+        if let Some(t) = &ts {
+            let text: String = t.to_string().chars().filter(|c| !c.is_whitespace()).collect();
+            if text.starts_with("::core::compile_error!") {
+                status = "dirty".to_string();
+            }
+        }
+    }
     let mut o = vec![("status", s(&status))];
     if let Some(ts) = ts {
         // determinism inside one process: expand again, compare token strings
@@ -421,6 +450,7 @@ fn expand_one(kind: &str, attr: &str, src: &str) -> J {
             Ok(f) => {
                 o.push(("parsed", J::B(true)));
                 o.push(("passthrough", passthrough(kind, &item_ts, f.items.first())));
+                o.push(("first", f.items.first().map(item_j).unwrap_or(J::Null)));
                 o.push(("items", J::A(f.items.iter().skip(1).map(item_j).collect())));
             }
             Err(e) => {
@@ -464,6 +494,90 @@ fn mode_expand(input: &str, out: &mut String) {
     flush(&cur, &attr, &src, out);
 }
 
+// ------------------------------------------------------------------------------------------------
+// scan mode: every macro-annotated item of real source files (tests, examples)
+// ------------------------------------------------------------------------------------------------
+fn macro_kind(a: &syn::Attribute) -> Option<&'static str> {
+    let last = a.path().segments.last()?.ident.to_string();
+    match last.as_str() {
+        "contract" => Some("contract"),
+        "interface" => Some("interface"),
+        "entry_points" => Some("entry_points"),
+        _ => None,
+    }
+}
+
+fn macro_args(a: &syn::Attribute) -> TS {
+    match &a.meta {
+        syn::Meta::List(l) => l.tokens.clone(),
+        _ => TS::new(),
+    }
+}
+
+fn scan_items(file: &str, items: &[syn::Item], n: &mut usize, out: &mut String) {
+    for it in items {
+        let (attrs, is_impl): (&Vec<syn::Attribute>, bool) = match it {
+            syn::Item::Impl(i) => (&i.attrs, true),
+            syn::Item::Trait(t) => (&t.attrs, false),
+            syn::Item::Mod(m) => {
+                if let Some((_, items)) = &m.content {
+                    scan_items(file, items, n, out);
+                }
+                continue;
+            }
+            _ => continue,
+        };
+        for (idx, a) in attrs.iter().enumerate() {
+            let Some(kind) = macro_kind(a) else { continue };
+            if (kind == "interface") == is_impl {
+                continue;
+            }
+            // the item as this macro receives it: attributes after this one stay attached
+            let rest: Vec<syn::Attribute> = attrs.iter().skip(idx + 1).cloned().collect();
+            let item_ts = match it {
+                syn::Item::Impl(i) => {
+                    let mut i = i.clone();
+                    i.attrs = rest;
+                    if kind == "contract" {
+                        i.attrs.retain(|a| macro_kind(a).is_none());
+                    }
+                    i.to_token_stream()
+                }
+                syn::Item::Trait(t) => {
+                    let mut t = t.clone();
+                    t.attrs = rest;
+                    t.to_token_stream()
+                }
+                _ => unreachable!(),
+            };
+            *n += 1;
+            let mut j = vec![("id", s(format!("{}#{}", file, n))), ("kind", s(kind))];
+            if let J::O(v) = expand_one(kind, &macro_args(a).to_string(), &item_ts.to_string()) {
+                // keep the verdict fields only (the full facts of real sources are large)
+                j.extend(v.into_iter().filter(|(k, _)| matches!(*k, "status" | "deterministic" | "hash" | "parsed" | "passthrough")));
+            }
+            J::O(j).write(out);
+            out.push('\n');
+        }
+    }
+}
+
+fn mode_scan(list: &str, out: &mut String) {
+    for path in list.lines().filter(|l| !l.trim().is_empty()) {
+        let Ok(text) = std::fs::read_to_string(path) else { continue };
+        match syn::parse_file(&text) {
+            Ok(f) => {
+                let mut n = 0;
+                scan_items(path, &f.items, &mut n, out);
+            }
+            Err(e) => {
+                J::O(vec![("id", s(path)), ("status", s(format!("file-unparsable:{}", e)))]).write(out);
+                out.push('\n');
+            }
+        }
+    }
+}
+
 include!(concat!(env!("SYLVIA_VERIF_HARNESS"), ".extract.rs"));
 
 #[test]
@@ -477,6 +591,7 @@ fn verif_entry() {
     match mode.as_str() {
         "expand" => mode_expand(&std::fs::read_to_string(&inp).expect("input file"), &mut out),
         "extract" => mode_extract(&inp, &mut out),
+        "scan" => mode_scan(&std::fs::read_to_string(&inp).expect("input file"), &mut out),
         "" => {}
         m => panic!("unknown VERIF_HOOK_MODE {}", m),
     }
